@@ -29,6 +29,7 @@ func main() {
 	r.Require("wallet-restart-comparisons", 150)
 	r.Require("wallet-dry-runs:import-account-failing", 5)
 	r.Require("wallet-dry-runs:create-tx", 5)
+	r.Require("wallet-dry-runs:create-tx-without-change", 2)
 	r.Require("c08-restart-comparisons", 1000)
 	r.Require("c08-rolled-back-txs:kind0", 20)
 	r.Require("c08-rolled-back-txs:kind1", 10)
